@@ -30,6 +30,8 @@ pub struct Opts {
     pub hostnames: bool,
     /// Longest horizon in ms (the run ends at min(this, 3 x largest TTL + 5 s)).
     pub max_horizon: u64,
+    /// Cache-only browses of other types opened next to the search (they send nothing and are owed nothing).
+    pub cache_only_others: u8,
 }
 
 impl Default for Opts {
@@ -41,6 +43,7 @@ impl Default for Opts {
             verify: true,
             hostnames: false,
             max_horizon: 3 * 4500 * 1000 + 5000,
+            cache_only_others: 0,
         }
     }
 }
@@ -209,6 +212,9 @@ pub fn scenario(seed: u64, opts: &Opts) -> Made {
             // waking every 10 ms for hours costs millions of idle iterations
             w.stepping = Stepping::Lazy;
         }
+    }
+    for k in 0..opts.cache_only_others {
+        w.browse_cache(h, &format!("_quiet{k}._udp.local."));
     }
     let browse_chan = w.browse(h, TY);
     let mut host_chans = Vec::new();
